@@ -55,7 +55,7 @@ fn kinematics(e: &mut Eng, sts: &[State], label: &str) {
             let v2 = v.add(a.mul(d));
             let p2 = p.add(v.mul(d)).add(a.mul(d).mul(d).div(Tr::exact(2.0)));
             let ok_a = got.acceleration.to_bits() == s.acceleration.to_bits();
-            let ok = if dt == 0 { got.position == s.position && got.velocity == s.velocity } else { v2.agrees(got.velocity, 8.0) && p2.agrees(got.position, 8.0) };
+            let ok = if dt == 0 { got.position == s.position && got.velocity == s.velocity } else { v2.agrees_any_order(got.velocity, 8.0) && p2.agrees_any_order(got.position, 8.0) };
             if !ok || !ok_a {
                 e.violation(&format!("state:update:{}", if dt == 0 { "zero-dt-not-identity" } else if !ok_a { "acceleration-changed" } else { label }), 1, || {
                     format!("{:?}.update({} ns) gave {:?} but v' = v + a dt = {} and p' = p + v dt + a dt^2/2 = {}", s, dt, got, v2.show(), p2.show())
@@ -63,6 +63,55 @@ fn kinematics(e: &mut Eng, sts: &[State], label: &str) {
             }
         }
     }
+}
+
+/// Dense one-parameter sweeps of State::update: for 8 base (velocity, acceleration) pairs of both
+/// signs the interval runs over +-(1 s x ratio grid) (0.24 ms .. 4096 s, 24 steps per octave), so
+/// that the dimensionless quantity a*dt/v takes densely spaced values of both signs; the same for
+/// the velocity at a fixed interval. Same oracle as the grid engine.
+fn kinematic_sweeps(e: &mut Eng) {
+    let grid = ratio_grid(24, 12);
+    let bases: [(f32, f32); 8] = [(7.1, -2.9), (-11.0, 3.7), (100.0, -190.0), (0.37, 0.059), (-4.3, -8.9), (50.0, 20.0), (1.3e-2, -6.1e-2), (-730.0, 41.0)];
+    let mut sts: Vec<(State, i64)> = Vec::new();
+    for &(v, a) in &bases {
+        for &r in &grid {
+            for sign in [1i64, -1] {
+                let dt = sign * (r * 1e9).round() as i64;
+                sts.push((State::new_raw(2.6, v, a), dt));
+            }
+            // velocity sweep at dt = +-0.7 s
+            sts.push((State::new_raw(-5.2, (v as f64 * r) as f32, a), 700_000_000));
+            sts.push((State::new_raw(-5.2, (v as f64 * r) as f32, a), -700_000_000));
+        }
+    }
+    for (s, dt) in sts {
+        e.executions += 1;
+        e.states += 1;
+        e.transitions += 1;
+        e.checks += 1;
+        e.nontrivial += 1;
+        let mut got = s;
+        let r = guard(|| {
+            got.update(Time(dt));
+            got
+        });
+        let got = match r {
+            Ok(g) => g,
+            Err(m) => {
+                e.violation("state:update:panic", 1, || format!("{:?}.update({} ns) panicked: {}", s, dt, m));
+                continue;
+            }
+        };
+        e.outcome(h64(&(bits(&s), dt, bits(&got))));
+        let d = secs(dt);
+        let (p, v, a) = (Tr::exact(s.position), Tr::exact(s.velocity), Tr::exact(s.acceleration));
+        let v2 = v.add(a.mul(d));
+        let p2 = p.add(v.mul(d)).add(a.mul(d).mul(d).div(Tr::exact(2.0)));
+        if !(v2.agrees_any_order(got.velocity, 8.0) && p2.agrees_any_order(got.position, 8.0)) || got.acceleration.to_bits() != s.acceleration.to_bits() {
+            e.violation("state:update:sweep", 1, || format!("{:?}.update({} ns) gave {:?} but v' = v + a dt = {} and p' = p + v dt + a dt^2/2 = {} (a dt / v = {:.4})", s, dt, got, v2.show(), p2.show(), s.acceleration as f64 * dt as f64 * 1e-9 / s.velocity as f64));
+        }
+    }
+    e.sample(|| "State(2.6, 100, -190).update(10.29 s): a dt / v = -1.955".to_string());
 }
 
 fn setters(e: &mut Eng, sts: &[State]) {
@@ -333,6 +382,8 @@ pub fn run(_ctx: &Ctx) -> Vec<Eng> {
     );
     kinematics(&mut e1, &exact, "exact-alphabet");
     kinematics(&mut e1, &broad, "broad-alphabet");
+    kinematic_sweeps(&mut e1);
+    e1.bounds.push_str("; plus dense sweeps: 8 base (v, a) pairs x the interval over +-(1 s x ratio grid: 24 steps per octave over 2^-12..2^12 plus 1 +- 2^-k) and x the velocity over the same grid at +-0.7 s (a*dt/v densely covered in both signs)");
     e1.sample(|| "State(1,-2,0.5).update(-0.5 s) -> v' = -2.25, p' = 2.0625".to_string());
     let mut e2 = Eng::new(
         "c14-setters",
